@@ -862,6 +862,19 @@ def _is_assert_raise(t):
 def small_rewrites(t):
     from .ssa import apply_lam
     h = head(t)
+    if h == "lam":
+        # eta:  lambda *a, **k: f(*a, **k)  ==  f      (also lambda x, y: f(x, y))
+        body = strip(t[3])
+        if head(body) == "call":
+            ps = t[2]
+            lp = lambda n: ("lparam", t[1], n)
+            want_args = tuple(("star", lp(p[0])) if p[2] == "var" else lp(p[0]) for p in ps if p[2] in ("pos", "var"))
+            want_kws = tuple(("**", lp(p[0])) for p in ps if p[2] == "kw")
+            got_kws = tuple((k, (strip(v)[1][0][1] if head(strip(v)) == "dmerge" and len(strip(v)[1]) == 1 and strip(v)[1][0][0] == "ref" else strip(v))) for k, v in body[3])
+            if tuple(strip(a) if head(a) != "star" else ("star", strip(a[1])) for a in body[2]) == want_args and got_kws == want_kws \
+                    and all(p[1] is None for p in ps) and not any(x[0] == "lparam" and x[1] == t[1] for x in walk(body[1])):
+                return body[1]
+        return t
     if h == "call":
         f = strip(t[1])
         # (f if c else g)(args)  ->  f(args) if c else g(args), lambdas beta-reduced
